@@ -4,7 +4,7 @@ namespace EaselModel.Ssi
 
 /-! ## fixed-width string buffers -/
 
-theorem strncpy_length (n : Nat) (k : Bytes) (h : k.length ≤ n) : (strncpy n k).length = n := by
+theorem strncpy_length (n : Nat) (k : Bytes) : (strncpy n k).length = n := by
   simp [strncpy]; omega
 
 theorem cstr_strncpy (n : Nat) (k : Bytes) (h0 : (0 : UInt8) ∉ k) (hl : k.length < n) : cstr (strncpy n k) = k := by
@@ -189,8 +189,7 @@ structure NewSsi.WF (ns : NewSsi) : Prop where
   fname : ∀ f ∈ ns.files, (0 : UInt8) ∉ f.name ∧ f.name.length < ns.flen ∧ f.fmt < 2^32 ∧ f.bpl < 2^32 ∧ f.rpl < 2^32
   pkey : ∀ k ∈ ns.pkeys, k.key ≠ [] ∧ (0 : UInt8) ∉ k.key ∧ k.key.length < ns.plen ∧ k.fnum < 65536 ∧
             k.roff < 2^64 ∧ k.doff < 2^64 ∧ k.len < 2^64
-  skey : ∀ a ∈ ns.skeys, a.key ≠ [] ∧ (0 : UInt8) ∉ a.key ∧ a.key.length < ns.slen ∧
-            (0 : UInt8) ∉ a.pkey ∧ a.pkey.length < ns.plen
+  skey : ∀ a ∈ ns.skeys, a.key ≠ [] ∧ (0 : UInt8) ∉ a.key ∧ a.key.length < ns.slen
   flen_lt : ns.flen < 65536
   plen_lt : ns.plen < 65536
   slen_lt : ns.slen < 65536
@@ -238,7 +237,7 @@ theorem writeBytes_internal (ns : NewSsi) (h : ns.WF) [Decidable ns.Distinct] :
   have hs : ∀ k ∈ sortSKeys ns.skeys, (0 : UInt8) ∉ k.key ∧ k.key.length < ns.slen := by
     intro k hk
     have := h.skey k ((sortSKeys_perm ns.skeys).mem_iff.mp hk)
-    exact ⟨this.2.1, this.2.2.1⟩
+    exact ⟨this.2.1, this.2.2⟩
   unfold NewSsi.writeBytes
   simp only [hfl, ↓reduceIte, h.internal, Bool.false_eq_true]
   rw [writePKeys_spec ns.plen _ _ hp, writeSKeys_spec ns.plen ns.slen _ _ hs, cstr_strncpy_nil, cstr_strncpy_nil]
